@@ -478,7 +478,8 @@ def main():
         "violations": len(violations),
     }
     os.makedirs(os.path.join(ROOT, "evidence"), exist_ok=True)
-    with open(os.path.join(ROOT, "evidence", f"{prop}.json"), "w") as fh:
+    evdir = workdir if os.environ.get("VERIF_SKIP_LEAN") == "1" else os.path.join(ROOT, "evidence")
+    with open(os.path.join(evdir, f"{prop}.json"), "w") as fh:
         json.dump(ev, fh, indent=1, default=list)
 
     for (e, line) in known_hits[:20]:
